@@ -202,13 +202,20 @@ func (g *gen) fixedPoint() {
 
 var resolutions = []float64{1, 2, 4.5}
 
+// resolutions below 1 px/mm: millimetres and pixels must not be confused in either direction
+var lowResolutions = []float64{0.5, 0.25, 0.8, float64(canvas.DPI(20)), float64(canvas.DPI(10))}
+
 func (g *gen) res() float64 {
 	c := g.c
-	switch c.Intn(8) {
+	switch c.Intn(10) {
 	case 0:
 		return float64(canvas.DPI(96))
 	case 1:
 		return c.Range(0.5, 6)
+	case 2, 3, 4:
+		return lowResolutions[c.Intn(len(lowResolutions))]
+	case 5:
+		return c.Range(0.1, 1)
 	}
 	return resolutions[c.Intn(3)]
 }
@@ -228,6 +235,9 @@ func (g *gen) sizes() {
 		default:
 			w, h = c.Range(0.6, 60), c.Range(0.6, 60)
 		}
+		if dpmm < 1 { // larger canvases at low resolution
+			w, h = w/dpmm, h/dpmm
+		}
 		if w*dpmm < 0.5 || h*dpmm < 0.5 {
 			continue
 		}
@@ -243,7 +253,11 @@ func (g *gen) sizes() {
 		if math.Abs(float64(b.Dx())-w*dpmm) > 0.5+1e-9 || math.Abs(float64(b.Dy())-h*dpmm) > 0.5+1e-9 || b.Min != (image.Point{}) {
 			c.Fail("image-size", fmt.Sprintf("New(%v,%v,%v) has bounds %v", w, h, dpmm, b), map[string]any{"w": w, "h": h, "dpmm": dpmm})
 		}
-		c.Count(fmt.Sprintf("size dpmm=%.3g", math.Round(dpmm*2)/2))
+		if dpmm < 1 {
+			c.Count("size dpmm<1")
+		} else {
+			c.Count(fmt.Sprintf("size dpmm=%.3g", math.Round(dpmm*2)/2))
+		}
 		c.Distinct("size" + hc.Hs(w, h, dpmm))
 	}
 }
@@ -255,6 +269,10 @@ func (g *gen) scan() {
 	for it := 0; it < c.N/4+1; it++ {
 		dpmm := g.res()
 		W, H := float64(4+c.Intn(30)), float64(4+c.Intn(30))
+		if dpmm < 1 {
+			W, H = math.Round(W/dpmm), math.Round(H/dpmm)
+			c.Count("scan canvas dpmm<1")
+		}
 		if c.Chance(0.3) {
 			W, H = W+0.25*float64(c.Intn(4)), H+0.25*float64(c.Intn(4))
 		}
@@ -433,7 +451,10 @@ func (g *gen) onePixelCase(it int) {
 	if c.Chance(0.1) {
 		dpmm = []float64{3, float64(canvas.DPI(96)), 1.5}[c.Intn(3)]
 	}
-	// canvas size so that the image stays around 100 x 80 pixels
+	if c.Chance(0.3) {
+		dpmm = lowResolutions[c.Intn(4)]
+	}
+	// canvas size so that the image stays around 100 x 80 pixels (so 120..440 mm below 1 px/mm)
 	W := math.Round(c.Range(70, 110)/dpmm*4) / 4
 	H := math.Round(c.Range(50, 90)/dpmm*4) / 4
 	if c.Chance(0.5) {
@@ -451,7 +472,7 @@ func (g *gen) onePixelCase(it int) {
 	used := map[color.RGBA]bool{}
 	var draws []drawRec
 	var descr []string
-	unit := math.Min(W, H) / 20 // polygons live in [-8,8]^2
+	unit0 := math.Min(W, H) / 20 // polygons live in [-8,8]^2
 	ndraws := 1 + c.Intn(3)
 	anyOpen := false
 	checkDashZone := false
@@ -468,10 +489,24 @@ func (g *gen) onePixelCase(it int) {
 			}
 			viewKinds = name
 		}
-		tx, ty := W/2+float64(c.Intn(9)-4)*0.25*unit, H/2+float64(c.Intn(9)-4)*0.25*unit
-		if csys == canvas.CartesianII || csys == canvas.CartesianIII {
-			// keep the drawing on the canvas: coordinates are measured from the other side
+		// placement: around the centre, inside one of the four quadrants, or in a corner
+		unit := unit0
+		cx, cy := W/2, H/2
+		switch c.Intn(4) {
+		case 0:
+			c.Count("placement: centre")
+		case 1, 2:
+			qx, qy := c.Intn(2), c.Intn(2)
+			cx, cy = W*(0.25+0.5*float64(qx)), H*(0.25+0.5*float64(qy))
+			unit = unit0 / 2
+			c.Count(fmt.Sprintf("placement: quadrant %d,%d", qx, qy))
+		default:
+			qx, qy := c.Intn(2), c.Intn(2)
+			cx, cy = W*(0.14+0.72*float64(qx)), H*(0.14+0.72*float64(qy))
+			unit = unit0 / 3.5
+			c.Count(fmt.Sprintf("placement: corner %d,%d", qx, qy))
 		}
+		tx, ty := cx+float64(c.Intn(9)-4)*0.25*unit, cy+float64(c.Intn(9)-4)*0.25*unit
 		apply("translate", translate(tx, ty), func() { ctx.Translate(tx, ty) })
 		vk := c.Intn(6)
 		switch vk {
@@ -780,6 +815,10 @@ func (g *gen) gradients() {
 	for it := 0; it < n; it++ {
 		dpmm := resolutions[c.Intn(3)]
 		W, H := float64(16+4*c.Intn(4)), float64(8+4*c.Intn(3))
+		if c.Chance(0.25) {
+			dpmm = lowResolutions[c.Intn(4)]
+			W, H = math.Round(W/dpmm), math.Round(H/dpmm)
+		}
 		linear := !c.Chance(0.3)
 		var space canvas.ColorSpace = canvas.LinearColorSpace{}
 		if !linear {
